@@ -33,7 +33,13 @@ CLAIMS["C02"] = dict(
          "its buffer, or the full-output path re-creates the integrator from (o1, deltaT)); rows_aliased proves the former defect (aliased buffer, no copy: every row is the final state); "
          "method_dispatch states the two decision tables outright. The model is tied to the code on every run (i) exactly, by driving the real functions with a fake exact integrator of x'=c "
          "with a chosen buffer behaviour, and (ii) by running every entry point x 6 methods x full_output x includeOrigin on random and catalogue models against an independent reference "
-         "(solve_ivp DOP853 1e-12, Radau cross-check, right-hand side from the Lean driver's assembled equations), acceptance |row-ref| <= 1e-6(1+|ref|).",
+         "(solve_ivp DOP853 1e-12, Radau cross-check, right-hand side from the Lean driver's assembled equations), acceptance |row-ref| <= 1e-6(1+|ref|). "
+         "Several calls: the instance state carried between calls (_x0, _t0, _odeTime, _odeSolution) is modelled (Inst/SOp/runOps) and session_is_pure / earlier_results_kept / "
+         "solve_reads_current prove that, for every history of assignments and solves, each result is the single-call function of its own arguments and the values assigned last and "
+         "that earlier results are unaffected (stale_grid_counterexample: a time vector kept when the grid repeats breaks this); tied exactly by random histories on one real model "
+         "against the fake integrator, and searched with the direct oracle by sessions on the real integrators: histories on one instance (change t0 / x0 / parameters / grid / "
+         "container / method / full_output / includeOrigin / entry point, solve, restore, solve), sibling instances (permuted declarations, other values, re-definitions, twin, deepcopy) "
+         "solved interleaved, and every accepted spelling of grid / x0 / t0 / parameters; returned arrays are kept and re-read after every later call, arguments checked for writes.",
     note="Trusted: Lean kernel; scipy.integrate.solve_ivp as reference; the harness fake integrator, float evaluator and generators; hand-written catalogue equations. "
          "Assumed and validated per run: scipy's ode/odeint approximate the flow (well-conditioned instances only; for the odeint entry points, which run at scipy's default tolerance 1.49e-8, "
          "the acceptance is max(1e-6, 20 x the error of scipy's own odeint on the same instance)); set_initial_value copies; `aliased` is measured on the real scipy (lsoda aliases in scipy 1.18). "
